@@ -1,78 +1,7 @@
-import Cppcms.C03.ConnWriteLemmas
-import Cppcms.C03.DeviceLemmas
 import Cppcms.C03.HttpLemmas
-/-! Composition of the layers: filter buffers → device → framing → connection write path. -/
+/-! The three protocols behind one interface (`Framing`), each with its round-trip theorem. -/
 namespace Cppcms.C03
 open Cppcms
-
-/-! ### actions of one layer as operations on the next -/
-
-def Act.toBufOp : Act → BufOp
-  | .put bs => .put bs
-  | .sync => .sync
-
-def Act.toDevOp : Act → DevOp
-  | .put bs => .put bs
-  | .sync => .sync
-
-theorem bufOps_data (acts : List Act) : ((acts.map Act.toBufOp).map BufOp.data).flatten = actBytes acts := by
-  induction acts with
-  | nil => rfl
-  | cons a as ih =>
-    cases a <;> simp [Act.toBufOp, BufOp.data, actBytes, Act.bytes] at * <;> rw [ih]
-
-theorem devOps_data (acts : List Act) : ((acts.map Act.toDevOp).map DevOp.data).flatten = actBytes acts := by
-  induction acts with
-  | nil => rfl
-  | cons a as ih =>
-    cases a <;> simp [Act.toDevOp, DevOp.data, actBytes, Act.bytes] at * <;> rw [ih]
-
-/-- `Dev.apply` (used by `Model.lean` to push a layer's actions into the device) is a run of device operations -/
-theorem Dev.apply_eq_run : ∀ (acts : List Act) (d : Dev) (k : Log), Dev.apply logIf d k acts = Dev.run (d, k) (acts.map Act.toDevOp) := by
-  intro acts
-  induction acts with
-  | nil => intro d k; rfl
-  | cons a as ih =>
-    intro d k
-    cases a with
-    | put bs => simp only [Dev.apply, List.map_cons, Act.toDevOp, Dev.run, List.foldl_cons, Dev.step]; exact ih _ _
-    | sync => simp only [Dev.apply, List.map_cons, Act.toDevOp, Dev.run, List.foldl_cons, Dev.step]; exact ih _ _
-
-/-! ### the calls a finalized device has made -/
-
-theorem log_no_eof : ∀ (k : Log), Log.eofs k = 0 → k = (k.map (·.1)).map (·, false) := by
-  intro k
-  induction k with
-  | nil => intro _; rfl
-  | cons x xs ih =>
-    intro h
-    obtain ⟨bs, e⟩ := x
-    cases e with
-    | true => simp [Log.eofs] at h
-    | false =>
-      have : Log.eofs xs = 0 := by simpa [Log.eofs] using h
-      rw [List.map_cons, List.map_cons]
-      congr 1
-      exact ih this
-
-/-- eof exactly once, with the last call: the log is `callsOf ws last` -/
-theorem log_callsOf (k : Log) (h1 : Log.eofs k = 1) (h2 : k.getLast?.map (fun (x : Bytes × Bool) => x.2) = some true) :
-    ∃ ws last, k = callsOf ws last ∧ Log.bytes k = ws.flatten ++ last := by
-  have hne : k ≠ [] := by intro h; subst h; simp at h2
-  obtain ⟨init, x, hk⟩ : ∃ init x, k = init ++ [x] := ⟨k.dropLast, k.getLast hne, (List.dropLast_concat_getLast hne).symm⟩
-  obtain ⟨last, e⟩ := x
-  subst hk
-  have he : e = true := by simpa using h2
-  subst he
-  have h0 : Log.eofs init = 0 := by
-    have := Log.eofs_append init last true
-    rw [h1] at this
-    simp at this
-    omega
-  refine ⟨init.map (·.1), last, ?_, ?_⟩
-  · unfold callsOf
-    rw [← log_no_eof init h0]
-  · rw [Log.bytes_append]; rfl
 
 /-! ### a framing protocol, abstractly -/
 
@@ -151,70 +80,5 @@ end Cppcms.C03
 
 namespace Cppcms.C03
 open Cppcms
-
-/-- device + framing + connection: whatever the device was given arrives, framed once, at the peer
-(in the raw modes: what follows the application's own header block) -/
-theorem chain_device (F : Framing) (isAsync full raw : Bool) (n : Nat) (ops : List DevOp)
-    (hlen : F.lengthOk (filterOf raw (ops.map DevOp.data).flatten).length)
-    (evs : List Ev) (hd : disciplined {} evs = true) (hb : (runEvs {} evs).broken = false) (hdr : (runEvs {} evs).backlog = [])
-    (hh : (evs.map Ev.data).flatten =
-      (F.run ((Dev.run (Dev.fresh isAsync full raw n, []) ops).1.close logIf (Dev.run (Dev.fresh isAsync full raw n, []) ops).2).2).1) :
-    ∃ head, F.deframe (runEvs {} evs).wire = some (head, filterOf raw (ops.map DevOp.data).flatten) := by
-  have ⟨hi0, hq0, hm0⟩ := Dev.fresh_inv isAsync full raw n
-  have ⟨hi, hq⟩ := Dev.run_inv ops _ [] [] hi0 hq0
-  have hm := Dev.run_rawMode ops _ [] [] hi0
-  simp only [List.nil_append] at hi
-  have ⟨c1, _, c3, c4, _⟩ := Dev.close_spec _ _ _ hi hq
-  rw [hm, hm0] at c1
-  obtain ⟨ws, last, hk, hbytes⟩ := log_callsOf _ c3 c4
-  rw [hk] at hh
-  rw [c1] at hbytes
-  obtain ⟨head, _, hde⟩ := F.roundtrip ws last (by rw [← hbytes]; exact hlen)
-  refine ⟨head, ?_⟩
-  have hw : (runEvs {} evs).wire = (evs.map Ev.data).flatten := by
-    have h := runEvs_inv evs {} (by simp [Conn.Inv, Conn.backlog]) hd hb
-    have hh2 := runEvs_handed evs {}
-    simp only [List.nil_append] at hh2
-    unfold Conn.Inv at h
-    rw [hdr, List.append_nil, hh2] at h
-    exact h
-  rw [hw, hh, hde, hbytes]
-
-/-- the whole chain of a compressed, cached page: application → gzip_buf → copy_buf → device → framing → connection
-(compression only happens in io mode `normal`, so the device is not in raw mode) -/
-theorem chain_gzip_cached (F : Framing) (D : Deflater) (gzBuf : Int) (isAsync full : Bool) (n : Nat) (appOps : List BufOp)
-    (inflate : Bytes → Option Bytes)
-    (hinf : ∀ cs l, (∀ x ∈ cs, x.2 ≠ Flush.finish) →
-        inflate (feedAll D D.init (cs ++ [(l, Flush.finish)])).2 = some ((cs ++ [(l, Flush.finish)]).map (·.1)).flatten) :
-    let g := Gz.run (Gz.open D gzBuf, []) appOps
-    let acts1 := g.2 ++ g.1.close.2
-    let k := Copy.run ({}, []) (acts1.map Act.toBufOp)
-    let acts2 := k.2 ++ k.1.close.2
-    let devOps := acts2.map Act.toDevOp
-    let d := Dev.run (Dev.fresh isAsync full false n, []) devOps
-    F.lengthOk (actBytes acts1).length →
-    ∀ evs, disciplined {} evs = true → (runEvs {} evs).broken = false → (runEvs {} evs).backlog = [] →
-      (evs.map Ev.data).flatten = (F.run (d.1.close logIf d.2).2).1 →
-      ∃ head body, F.deframe (runEvs {} evs).wire = some (head, body) ∧
-        inflate body = some (appOps.map BufOp.data).flatten ∧ k.1.close.1.getstr.1 = body := by
-  intro g acts1 k acts2 devOps d hlen evs hd hb hdr hh
-  have hg := Gz.run_inv appOps (Gz.open D gzBuf) [] [] (by simpa [actBytes] using Gz.open_inv D gzBuf)
-  simp only [List.nil_append] at hg
-  obtain ⟨calls, lastc, g1, g2, g3, g4, _⟩ := Gz.close_spec g.1 _ _ hg
-  have hz : inflate (actBytes acts1) = some (appOps.map BufOp.data).flatten := by
-    show inflate (actBytes (g.2 ++ g.1.close.2)) = _
-    rw [actBytes_append, ← g4, g1, hinf calls lastc g2, ← g1, g3]
-  have hk := Copy.run_inv (acts1.map Act.toBufOp) {} [] [] (by simpa [actBytes] using Copy.inv_init)
-  simp only [List.nil_append] at hk
-  have ⟨k1, k2⟩ := Copy.close_spec k.1 _ _ hk
-  rw [bufOps_data] at k1 k2
-  have hacts2 : actBytes acts2 = actBytes acts1 := by
-    show actBytes (k.2 ++ k.1.close.2) = _
-    rw [actBytes_append]; exact k1
-  have hdev := chain_device F isAsync full false n devOps (by simp only [filterOf]; rw [devOps_data, hacts2]; exact hlen) evs hd hb hdr hh
-  simp only [filterOf, Bool.false_eq_true, if_false] at hdev
-  rw [devOps_data, hacts2] at hdev
-  obtain ⟨head, hde⟩ := hdev
-  exact ⟨head, actBytes acts1, hde, hz, k2⟩
 
 end Cppcms.C03
